@@ -309,7 +309,12 @@ def write_replay(prop, seed, payload):
     return path
 
 
+REPLAY_MODE = [False]
+
+
 def write_evidence(prop, ev):
+    if REPLAY_MODE[0]:
+        return      # a --replay run explores one recorded case; it must not replace the evidence of the last full run
     os.makedirs(os.path.join(VERIF, 'evidence'), exist_ok=True)
     with open(os.path.join(VERIF, 'evidence', f'{prop}.json'), 'w') as fh:
         json.dump(ev, fh, indent=1)
@@ -332,6 +337,7 @@ def first_error_theorem(build_log, props_file, theorems):
 # ------------------------------------------------------------------------------------------------
 def run_check(mod, tier, seed, replay=None):
     t0 = time.time()
+    REPLAY_MODE[0] = bool(replay)
     prop = mod.PROP
     rng = random.Random(seed * 1000003 + (17 if tier == 'thorough' else 0))
     props_module = f'DcVerif.Props.{prop}'
